@@ -330,8 +330,11 @@ def r03_3(ctx):
     ctx.need(good, "resolve_hybrid has no non-raising path")
     for o in good:
         assigns = [n for n in r.nodes if n.cls == "Assignment"] if False else [e[2] for e in o.events if e[0] == "node" and e[1] == "Assignment"]
-        ok = len(assigns) == 1 and lab(ctor(assigns[0], "src")).startswith("Conv(type(LocalVar(") and lab(ctor(assigns[0], "src")).endswith(",hybrid)")
-        ctx.check("resolve_hybrid temporary conversion", ok, "Assignment(h_tmp, Conv(type(h_tmp),hybrid))", [lab(ctor(a, 'src')) for a in assigns], fn_where(idx, fi))
+        srcs = [lab(ctor(a, "src")) for a in assigns]
+        same_type = len(assigns) == 1 and isinstance(ctor(assigns[0], "dest"), AObj) and ctor(ctor(assigns[0], "dest"), "value_type") is not None \
+            and srcs == ["hybrid"]
+        ok = len(assigns) == 1 and ((srcs[0].startswith("Conv(type(LocalVar(") and srcs[0].endswith(",hybrid)")) or same_type)
+        ctx.check("resolve_hybrid temporary conversion", ok, "Assignment(h_tmp, hybrid converted to the temporary's type (the temporary is declared with the hybrid's own type object))", [lab(ctor(a, 'src')) for a in assigns], fn_where(idx, fi))
 
 
 @rule("R03.4", "C03", "call result readers narrow ret_val by the declared return signedness and width", min_instances=4)
